@@ -126,6 +126,41 @@ def requirements(ex):
       for xs in cls(x):
         for A in callers.get(xs, ()):
           if A != y and (x, A) not in lt: req.append(('mu', (A, xs), y, (x, y)))
+  return req + chain_requirements(ex, blocks, find, cls, callers, lt)
+
+def chain_requirements(ex, blocks, find, cls, callers, lt):
+  """'<' is an order, so constraints compose: along x0 < x1 < ... < xk (k >= 2; the intermediate x_i are methods, taken up to
+  their == classes, called by some block or by none) whatever stands for x0 (the block itself, or a block calling a method of
+  its class) precedes whatever stands for xk.  Kept clear of the pass's documented "INVALID if explicit constraint" exemptions:
+  a calling block is only used when it occurs in no U/M constraint itself; chains from a block to a block are not demanded
+  (the pass derives nothing when no method of the chain is called)."""
+  node = lambda x: ('b', x) if x in blocks else ('m', find(x))
+  adj = {}
+  for x, y in lt: adj.setdefault(node(x), set()).add(node(y))
+  constrained_blocks = {n for x, y in lt for n in (x, y) if n in blocks}
+  def stands_for(nd):
+    if nd[0] == 'b': return [(nd[1], None)]
+    return [(A, m) for m in cls(nd[1]) for A in callers.get(m, ()) if A not in constrained_blocks]
+  req = []
+  for s in sorted(adj):
+    src = stands_for(s)
+    if not src: continue
+    # nodes reachable from s through method classes only, with the length of the shortest such path
+    dist, frontier = {}, [(t, 1) for t in adj[s]]
+    while frontier:
+      t, k = frontier.pop(0)
+      if t in dist or t == s: continue
+      dist[t] = k
+      if t[0] == 'm': frontier += [(u, k + 1) for u in adj.get(t, ())]
+    for t, k in sorted(dist.items()):
+      if k < 2 or (s[0] == 'b' and t[0] == 'b'): continue
+      for A, xs in src:
+        for B, ys in stands_for(t):
+          if A == B: continue
+          why = ('chain', s[1], t[1], k)
+          if xs is None: req.append(('um', A, (B, ys), why))
+          elif ys is None: req.append(('mu', (A, xs), B, why))
+          else: req.append(('mm', (A, xs), (B, ys), why))
   return req
 
 def check_schedule(ex, req, sched):
